@@ -148,7 +148,7 @@ def get_image_quadrants(IM, reorient=True, symmetry_axis=None,
     m_c = m // 2 + m % 2
 
 
-    if isinstance(symmetry_axis, tuple) and not reorient:
+    if not reorient and any(a is not None for a in symmetry_axis):
         raise ValueError(
             'In order to add quadrants (i.e., to apply horizontal or \
             vertical symmetry), you must reorient the image.')
